@@ -256,7 +256,7 @@ func sortedKeys(m map[string]json.RawMessage) []string {
 
 // stdoutKinds lists the reply classes of a command.
 func stdoutKinds(cmd string) []string {
-	ks := []string{"nonjson", "empty", "toptype-array", "toptype-string", "toptype-number", "fieldtype"}
+	ks := []string{"nonjson", "trailing", "empty", "toptype-array", "toptype-string", "toptype-number", "fieldtype"}
 	if cmd == "get-plugin-metadata" {
 		for _, f := range metaFields {
 			ks = append(ks, "missing-"+f, "empty-"+f)
@@ -276,6 +276,8 @@ func genStdout(rt *rapid.T, kind, reply, name string) string {
 	case kind == "nonjson":
 		return rp.Pick(rt, "nonjson", "not json", "{", `{"name":`, "<html><body>500</body></html>", reply[:len(reply)-1],
 			reply[:len(reply)/2], "\n", "\x00\x01\x02", "Error: something failed")
+	case kind == "trailing": // a complete valid reply followed by something that is not white space
+		return reply + rp.Pick(rt, "trailing", "\nplugin: done", reply, "}", " x", "\n"+reply, "null", "\x00")
 	case kind == "toptype-array":
 		return rp.Pick(rt, "array", "[]", "["+reply+"]", `["a","b"]`)
 	case kind == "toptype-string":
@@ -872,7 +874,7 @@ func (c *Case) failing() bool { return c.Exit != 0 || c.Kill }
 // stdoutClass groups the reply kinds for finding keys.
 func stdoutClass(kind string) string {
 	switch {
-	case kind == "nonjson" || kind == "empty" || strings.HasPrefix(kind, "toptype-"):
+	case kind == "nonjson" || kind == "trailing" || kind == "empty" || strings.HasPrefix(kind, "toptype-"):
 		return "reply-not-a-json-object"
 	case kind == "fieldtype":
 		return "reply-field-of-wrong-type"
